@@ -9,19 +9,52 @@ TECH = "bounded symbolic execution of the real Rust source (Kani 0.68 -> CBMC 6.
 
 CLAIMED = {
     # id: (level text, level_note, design_ref)
-    "C04": ("Every history of <=3 line entries over ANY u64 line numbers (symbolic) is decided against a last-writer-wins reference map: membership, payload, first/after (incl. u64::MAX), two-index agreement; LIST order on 54 concrete-key histories. Bounded model checking: nothing beyond 3 entries / 1-token payloads is claimed.",
-            "std HashMap/BTreeSet replaced by the Vec-backed contract model (validated natively by the repo's tests); text entry and LIST text formatting outside.", "5/C04"),
-    "C16": ("DimArray::new decided for every 1-3 tuple of usize maxima (thorough: 4) against an exact u128 product and the 10000 cap; addressing bijection on symbolic arrays.",
-            "Kani/CBMC bit-precise semantics of the compiled MIR; bounds stated per harness in the evidence.", "5/C16"),
-    "C18": ("LCG step, scaling and sign dispatch decided for ALL 2^64 seeds / all 2^33 states / all non-NaN arguments against a u128 reference built from the constants in the property text; sequences follow by induction on the state (paper argument).",
-            "Bit-precise SAT encoding of u64/f64 operations by CBMC; NaN argument excluded (unspecified by the property).", "5/C18"),
+    "C01": ("Panic-freedom and error-as-value obligations decided per mechanism: every arithmetic kernel the property names for ALL values (usize array maxima, u64 line numbers and seeds, f64 subscripts, 21-digit numerals), plus scenario steps showing that a failing statement yields an error value with a location, leaves the interpreter idle, renders without panic and accepts a further line. Bounded: histories <= 4 turns, units instead of whole-line text, native stack depth not decided.",
+            "Aggregates harnesses of C03/C04/C16/C18 tagged C01; container model, fmt/backtrace/gc stubs as listed in the evidence.", "9.3/C01"),
+    "C02": ("Every expression arm (tree shape x operator assignment x leaf kinds, one Kani harness each) evaluated by the real ExpressionEvaluator equals an independent reference fold (value bit-exact or error kind), for all leaf values chosen by the solver from small sets incl. NaN/inf/-0 and 4 strings. Quick: all 13 operators x 4 operand-kind combinations, all 36 precedence-tier pairs without parentheses, unary/ABS/INT/parenthesis arms, seeded extra pairs; thorough: all 169 pairs in both groupings, full parenthesisation, typed mixes, sampled triples.",
+            "powf replaced by a marker function on both sides; leaf values from a stated finite set (symbolic selector), not all doubles (FP mul/div equivalence does not finish otherwise).", "9.3/C02"),
+    "C03": ("Reference step semantics decided per mechanism from constructed pre-states with symbolic data (FOR/NEXT for all non-NaN from/to/step, IF truthiness for all doubles, subscript conversion for all doubles, DATA order, GOSUB/RETURN, DEF FN scoping, sequencing at the u64 extremes, error kind and line). Not whole-program differential execution: one data-dependent statement per harness.",
+            "Jump targets restricted to line 0 (CBMC constant-cast folding bug, DESIGN 9.2); stmt() recombines postprocess_result's steps.", "9.3/C03"),
+    "C04": ("Every history of <=3 line entries over ANY u64 line numbers (symbolic) is decided against a last-writer-wins reference map: membership, payload, first/after (incl. u64::MAX), two-index agreement; LIST order on 54 concrete-key histories; numeral prefix parsing for any 8 ASCII bytes and for 20-digit numerals (u64::MAX exact, overflow -> none).",
+            "std HashMap/BTreeSet replaced by the Vec-backed contract model (validated natively by the repo's tests); LIST text formatting and failed-edit ordering outside (the latter by code structure).", "9.3/C04"),
+    "C05": ("The real SourceFileAnalyzer is symbolically executed on concrete files covering the shapes the property names (redefinition by an empty / untokenizable line, unnumbered, blank, CR, multi-byte illegal character, type and tokenization errors) with the mapping invariants asserted on every diagnostic; error-range arithmetic for all positions. Concrete texts: this is a witness-level check, not a claim over all files.",
+            "No symbolic text (tokenizer + analyzer on symbolic bytes is out of reach); fmt/backtrace/gc stubs.", "9.3/C05"),
+    "C06": ("Per statement shape (57 quick / 159 thorough, one harness each): the real StatementAnalyzer verdict vs. the real StatementEvaluator outcome for ALL variable values (present with any value of a small set, or absent): accepted => no SYNTAX/TYPE MISMATCH/UNDEF'D STATEMENT; rejected straight-line => fails.",
+            "Single statements; jump targets line 0; values from stated finite sets.", "9.3/C06"),
+    "C07": ("Break/CONT round trip from a symbolic cursor position with frames, loops, function table and data cursor present; inspecting, failing and assigning immediate statements at a breakpoint; STOP; a failing user-function call pops its frame. One-step unit claims (the induction to whole runs is a paper argument).",
+            "Pre-states constructed directly; not A/B runs of whole programs.", "9.3/C07"),
+    "C08": ("INPUT suspension point and resumption decided per reply class (d / x / empty / d,e / d:e / \"x\") and target kind with symbolic digits and letters: stored value, EXTRA IGNORED, REENTER, cursor positions, nothing else executed; array target; THEN/ELSE placement (known finding D5).",
+            "Reply parser replaced by a class-driven model in these scenarios (natively the real parser runs on the same text; the parser itself is decided on class strings by gen/data_arms.py).", "9.3/C08"),
+    "C09": ("One statement per host call shown on multi-statement lines with marker effects and trace-record counts, IF counted with its selected statement, a non-terminating program returning every turn; per-call work bounded by line length via Kani's unwinding assertions (unwind 16 on lines <= 11 tokens).",
+            "Lines longer than the bound and user-function bodies outside.", "9.3/C09"),
+    "C10": ("The real text-level RUN from a constructed dirty state (variables, arrays, 2 frames, loop, function, advanced data cursor, breakpoint, pending reply, any seed) leaves every piece of runtime state reset and the seed untouched; first statements then behave as in a fresh interpreter.",
+            "One-step claim from a representative dirty state; sizes <= 2.", "9.3/C10"),
+    "C11": ("From the same dirty suspended state, each kind of successful edit (add / replace / delete / replace the DATA line) drops breakpoint, frames, loops, functions and data cursor; CONT / RETURN / NEXT / READ probes give the documented errors / first item; variables and arrays kept; jumping to a deleted line is an error, not a panic.",
+            "Rejected edits: by code structure (tokenization precedes the store).", "9.3/C11"),
+    "C12": ("Matcher units on 6 fully symbolic ASCII bytes with symbolic start: line cruncher exactness; keyword matcher verdict and advance as a function of the crunched upper-cased bytes for all 26 keywords; one/two-character operators; leading-blank chomp; DATA item parser on all class strings of length <= 3 (4 thorough) with symbolic letters under blank insertion.",
+            "Whole-line composition is a paper argument; chomp_symbol / chomp_number / chomp_string not covered.", "9.3/C12"),
+    "C13": ("Same units with range assertions (cursor right after the last consumed byte, never on a blank, within the line; failed match consumes nothing) and tokenization-error range arithmetic for all positions.",
+            "Re-tokenization oracle and multi-byte text not covered.", "9.3/C13"),
+    "C14": ("Canonical spelling (real Display) of each of the 39 payload-free tokens re-tokenizes through the real tokenizer to exactly that token; DATA parser insensitive to blanks at item boundaries (class strings). Witness-level for the spelling part (concrete).",
+            "Adjacent pairs, numerals, string/remark payloads and the DATA renderer (std formatting) outside.", "9.3/C14"),
+    "C16": ("DimArray::new decided for every 1-3 tuple of usize maxima (thorough: 4) against an exact u128 product and the 10000 cap; addressing bijection on symbolic arrays; frame cap at 31/32 (GOSUB and FN call), loop cap at 32 with re-entry, pairwise-distinct loop variables; typed writes refused without side effects.",
+            "\"Every write path\" closed by reading, not by the solver.", "9.3/C16"),
+    "C17": ("2-safety step: two interpreters in the same state, flags (tracing, warnings) symbolic in one and off in the other, same statement: identical outcome, state, location and Print records; trace record iff tracing and numbered line, naming the line; warning iff warnings and the variable/array is absent; TRACE/NOTRACE set exactly the flag.",
+            "One statement per harness; whole-run transparency by induction (paper).", "9.3/C17"),
+    "C18": ("LCG step, scaling and sign dispatch decided for ALL 2^64 seeds / all 2^33 states / all non-NaN arguments against a u128 reference built from the constants in the property text; randomize stores any seed; RND(e) in a statement reaches the generator.",
+            "Bit-precise SAT encoding of u64/f64 operations by CBMC; NaN argument excluded (unspecified by the property).", "9.3/C18"),
+    "C19": ("The real abasic-web adapter driven by a Rust transliteration of main.ts's loader / submit / break / state handler, with the core replaced by a nondeterministic contract (any state the documented post-conditions allow; which calls fail is enumerated as masks): no adapter assertion or panic arm reachable, error latch cleared, NEW swaps in a fresh interpreter, output type mapping exhaustive. Counterexamples are replayed natively through realiser texts on the un-stubbed core.",
+            "The contract is trusted (its clauses are what C01/C07/C08 check on the real core); events <= 1 quick / 2 thorough, loader <= 2 lines.", "9.3/C19"),
 }
 
-NOT_APPLICABLE = {}
+NOT_APPLICABLE = {
+    "C15": "Process-level property (stdout/stderr of `abasic FILE` vs a piped session, clap/rustyline/ctrlc, the options -w/-t/--skip-check): I/O, FFI and argument parsing cannot be encoded for CBMC within reach; only the core clause (analyzer-loaded program == typed-in program) is exercised, as a side harness (c15_load_equals_typing, concrete text) that is reported under C04's evidence family but not claimed as deciding C15. The known CLI defect (file mode drops -w/-t) was found by reading, not by a check.",
+    "C20": "Language-server liveness over JSON-RPC/stdio with threads is process-level behaviour Kani does not handle; the position arithmetic in abasic-lsp/src/main.rs takes a SourceFileAnalyzer built from text, and cross-crate stubs of abasic-core's private items (needed to keep the analysis tractable from the abasic-lsp crate) could not be set up in the time available. The analyzer crash it depends on is covered (and fixed) under C05.",
+}
 
 ALL = ["C%02d" % i for i in range(1, 21)]
 
-PENDING_REASON = "not yet built in this revision of /verif (planned: see DESIGN.md section 5); no claim is made"
+PENDING_REASON = "not claimed"
 
 
 def main():
